@@ -32,7 +32,7 @@ func init() {
 		Level: "exploration",
 		Rule: "E1 bounded-exhaustive enumeration of the kind grammar T ::= scalar | string | [k]T | []T | map[K]T | *T | interface{} | struct{T,…} built with reflect to depth 3 (thorough 4) (every depth-1 type, then W types spread over each level as elements of the next): all 17 scalar kinds (bool, int8..64, int, uint8..64, uint, uintptr, float32/64, complex64/128) at every leaf position of depth-1 composites, a 7-type leaf subset plus 9 types of the previous level for binary structs; arrays of 0 and 2 elements; struct arity 1 and 2; map keys string/int32/uint; " +
 			"values per type from a shape alphabet (slices nil/empty/1/2 elements, maps nil/empty/1/2 entries, pointers nil/non-nil, interfaces nil/scalar/string/pointer/struct, strings \"\",\"a\",\"abc\" and 40 bytes; over leaf types also slices of 9, 70 and 1025 elements and maps of 9, 40 and 1000 entries; pointer values are deliberately REUSED in both elements of arrays and both fields of structs, so shared acyclic pointers occur). Oracle: the generator returns (value, size) and computes the size while building (headers 16/24/8/8/16, 8 for int/uint/uintptr; 64-bit platform asserted). size.Of on every value; Stat(v,d,m) for d in {0,1,3}, m in {0,1,10} and the AvgOf form: the number on the first line equals the expected size. " +
-			"Plus WIDE structs (7..257 fields, the last six a string, a []byte, a pointer, an interface, a map and an array; alone, in slices of 1..3, a [2] array and a map). Plus 34 hand-written values (16 of them deep: linked lists of 999..50001 nodes and interface/pointer chains of 1000..10000 boxes) (among them maps whose struct / array / interface keys differ in structural size) of Go types reflect cannot build (unexported and embedded fields, named types, padding, interior pointers of another type into the object being walked - to its first field or element and further in), and a SEQUENCE of 13 values of distinct types that print alike (seven local types all called props.rec, two package-level types both called model.Rec; in pairs also equal in Size and Kind), measured in order by one goroutine, forward then backward: nothing may be carried from one type to a like-named one; and a SEQUENCE on shared objects in which out-of-domain calls (a chan, a func, an unsafe.Pointer behind pointers: Of and Stat panic, the caller recovers) come between measurements of in-domain values that reach the same pointers: a recovered panic must leave nothing behind. A case is one (value, function) pair; non-trivial when the type is composite.",
+			"Plus element structs {A [L]T; B S} (L 0..3, T not scalar, S of 1 / 8 / 16 bytes) inside slices, arrays, maps and behind a pointer. Plus WIDE structs (7..257 fields, the last six a string, a []byte, a pointer, an interface, a map and an array; alone, in slices of 1..3, a [2] array and a map). Plus 34 hand-written values (16 of them deep: linked lists of 999..50001 nodes and interface/pointer chains of 1000..10000 boxes) (among them maps whose struct / array / interface keys differ in structural size) of Go types reflect cannot build (unexported and embedded fields, named types, padding, interior pointers of another type into the object being walked - to its first field or element and further in), and a SEQUENCE of 13 values of distinct types that print alike (seven local types all called props.rec, two package-level types both called model.Rec; in pairs also equal in Size and Kind), measured in order by one goroutine, forward then backward: nothing may be carried from one type to a like-named one; and a SEQUENCE on shared objects in which out-of-domain calls (a chan, a func, an unsafe.Pointer behind pointers: Of and Stat panic, the caller recovers) come between measurements of in-domain values that reach the same pointers: a recovered panic must leave nothing behind. A case is one (value, function) pair; non-trivial when the type is composite.",
 		Assumptions: []string{
 			"64-bit platform (asserted at start)",
 			"types deeper than D, struct arity > 2 and cyclic values are not generated (cycles are excluded by the statement)",
@@ -314,6 +314,71 @@ func c20Wide() c20Type {
 		m.SetMapIndex(reflect.ValueOf(int32(1)), mk(0))
 		m.SetMapIndex(reflect.ValueOf(int32(2)), mk(1))
 		t.vals = append(t.vals, c20Val{m, 8 + 2*(4+one), fmt.Sprintf("map[int32]struct of %d fields, 2 entries", W)})
+	}
+	return t
+}
+
+// c20ArrayFields: element structs {A [L]T; B S} with L in 0..3, T not scalar (string, pointer, interface, []byte,
+// map) and S a scalar part of 1, 8 or 16 bytes, as the elements of a slice of 2, a [1] and a [2] array, a map
+// value and behind a pointer to a [1] array: a "flat size of the element type" shortcut has to notice the
+// non-scalar array field whatever the other field weighs.
+func c20ArrayFields() c20Type {
+	t := c20Type{t: reflect.TypeOf(struct{ ArrayField int8 }{}), composite: true}
+	i32 := int32(9)
+	type tv struct {
+		x    interface{}
+		size int
+	}
+	ts := []tv{{"abc", 16 + 3}, {&i32, 8 + 4}, {[]byte("hello"), 24 + 5}, {map[string]int8{"k": 1}, 8 + 16 + 1 + 1}}
+	ss := []tv{{int8(7), 1}, {int64(7), 8}, {[16]byte{1}, 16}}
+	for L := 0; L <= 3; L++ {
+		for ti, T := range append(ts, tv{nil, 0}) {
+			for _, S := range ss {
+				var et reflect.Type
+				var one reflect.Value
+				esz := 0
+				if ti == len(ts) { // interface{} elements holding an int16
+					et = c20Iface
+					one = reflect.ValueOf(int16(3))
+					esz = 16 + 2
+				} else {
+					et = reflect.TypeOf(T.x)
+					one = reflect.ValueOf(T.x)
+					esz = T.size
+				}
+				st := reflect.StructOf([]reflect.StructField{
+					{Name: "A", Type: reflect.ArrayOf(L, et)},
+					{Name: "B", Type: reflect.TypeOf(S.x)},
+				})
+				mk := func() reflect.Value {
+					v := reflect.New(st).Elem()
+					for i := 0; i < L; i++ {
+						v.Field(0).Index(i).Set(one)
+					}
+					v.Field(1).Set(reflect.ValueOf(S.x))
+					return v
+				}
+				el := L*esz + S.size
+				d := fmt.Sprintf("struct{A [%d]%v; B %v}", L, et, reflect.TypeOf(S.x))
+				sl := reflect.MakeSlice(reflect.SliceOf(st), 2, 2)
+				sl.Index(0).Set(mk())
+				sl.Index(1).Set(mk())
+				t.vals = append(t.vals, c20Val{sl, 24 + 2*el, "[]" + d + " of 2"})
+				for _, n := range []int{1, 2} {
+					arr := reflect.New(reflect.ArrayOf(n, st)).Elem()
+					for i := 0; i < n; i++ {
+						arr.Index(i).Set(mk())
+					}
+					t.vals = append(t.vals, c20Val{arr, n * el, fmt.Sprintf("[%d]%s", n, d)})
+					if n == 1 {
+						t.vals = append(t.vals, c20Val{arr.Addr(), 8 + el, "*[1]" + d})
+					}
+				}
+				m := reflect.MakeMap(reflect.MapOf(reflect.TypeOf(int32(0)), st))
+				m.SetMapIndex(reflect.ValueOf(int32(1)), mk())
+				t.vals = append(t.vals, c20Val{m, 8 + 4 + el, "map[int32]" + d})
+			}
+		}
 	}
 	return t
 }
@@ -800,7 +865,7 @@ func c20Run(c *mc.Ctx) {
 	c.Set("type_depth", D)
 	c.Set("types", len(types))
 	c.Set("types_per_depth", per)
-	types = append(types, c20Handwritten(), c20SameNamed(), c20IfaceSlots(), c20AfterPanic(), c20Wide())
+	types = append(types, c20Handwritten(), c20SameNamed(), c20IfaceSlots(), c20AfterPanic(), c20Wide(), c20ArrayFields())
 	nvals := 0
 	for _, t := range types {
 		nvals += len(t.vals)
@@ -868,7 +933,7 @@ func c20Judge(kind string, cs c20Case) (got, want string) {
 		return fmt.Sprintf("Of=%s%d", p, g), "Of=0"
 	}
 	types, _ := c20Types(cs.Depth, cs.Width)
-	types = append(types, c20Handwritten(), c20SameNamed(), c20IfaceSlots(), c20AfterPanic(), c20Wide())
+	types = append(types, c20Handwritten(), c20SameNamed(), c20IfaceSlots(), c20AfterPanic(), c20Wide(), c20ArrayFields())
 	if cs.Path[0] >= len(types) || cs.Path[1] >= len(types[cs.Path[0]].vals) {
 		return "case does not exist in this enumeration", ""
 	}
